@@ -387,23 +387,32 @@ private:
       //       and the seq-cst fence (3)
       XENIUM_THREAD_FENCE(std::memory_order_acquire);
 
+      // The orphans of the slot that is about to become current have to be taken _before_ the new epoch is
+      // published. As long as the global epoch is still curr_epoch this slot only contains nodes that were retired
+      // at least two epochs ago; once the new epoch is visible, other threads may already abandon nodes that were
+      // retired in the _new_ epoch into the very same slot, and those must not be reclaimed yet.
+      auto& orphan_list = orphans[new_epoch % number_epochs];
+      auto* orphaned_nodes = orphan_list.adopt();
+
       // (7) - this release-CAS synchronizes-with the acquire-load (5)
       bool success = global_epoch.compare_exchange_strong(
         curr_epoch, new_epoch, std::memory_order_release, std::memory_order_relaxed);
       if (XENIUM_LIKELY(success)) {
-        reclaim_orphans(new_epoch);
+        detail::delete_objects(orphaned_nodes);
+      } else if (orphaned_nodes != nullptr) {
+        // some other thread has updated the epoch in the meantime, so we cannot tell how old the adopted nodes
+        // are -> put them back; they get reclaimed when this slot becomes current the next time.
+        auto* last = orphaned_nodes;
+        while (last->next != nullptr) {
+          last = last->next;
+        }
+        orphan_list.add({orphaned_nodes, last});
       }
     }
     return new_epoch;
   }
 
   void add_retired_node(detail::deletable_object* p) { retire_lists[local_epoch_idx].push(p); }
-
-  void reclaim_orphans(epoch_t epoch) {
-    auto idx = epoch % number_epochs;
-    auto* nodes = orphans[idx].adopt();
-    detail::delete_objects(nodes);
-  }
 
   unsigned critical_entries_since_update = 0;
   unsigned nested_critical_entries = 0;
